@@ -97,8 +97,8 @@ Proof.
   - destruct p, oty; try discriminate; apply Ext_drop_id_local.
   - destruct (is_seq_type oty); [apply Ext_do_insert|discriminate].
   - destruct (is_seq_type oty); [apply Ext_do_insert|discriminate].
-  - destruct oty; try apply Ext_drop_id_local.
-    destruct p; [discriminate|apply Ext_inner_splice].
+  - destruct p, oty; try discriminate; try apply Ext_drop_id_local.
+    destruct (seq_width e OText (seq_elems (tx_all t) obj) <=? i); [discriminate|apply Ext_inner_splice].
   - apply Ext_drop_id_local.
   - destruct oty; try discriminate; [apply Ext_inner_splice|].
     destruct (splice_text_of vs); [apply Ext_inner_splice|discriminate].
